@@ -5,11 +5,11 @@ import rig
 from rig import Infra
 
 META = {
-    "engine": "AEProduct(AELexer x AEHTMLTok/AEJSLex/AECSSLex)+AEHist+AEMd+AEContext+AEConfine",
-    "technique": "TLA+ product automaton of an implementation-shaped model of lexer.scan and a reference WHATWG-HTML/JavaScript/CSS/JSON tokenizer, explored by TLC over a fragment alphabet to the fix-point of the region where the two machines are in step (documents of unbounded length) plus a bounded number of fragments behind every root cause; the shortest document of every product state is built by the real code with a show at every fragment boundary (real ast.Show contexts judged against the reference slots by TLC: candidates and root causes) and every transition out of a synchronised state is replayed against the real lexer; holes of every (context, slot, root cause) class are rendered with a context-breaking value dictionary, and TLC tokenises every rendered output with the reference tokenizers and compares its structure signature with that of the benign rendering. Two further case spaces are enumerated by TLC: documents with SEVERAL shows (pairs of attribute segments, the renderer's URL state being entered and left by shows and by text; one show is probed, the others are benign), and Markdown template files (every sequence of up to 3 fragments of a Markdown alphabet, holes at every boundary), whose outputs are converted by a CommonMark converter and compared by the structure of the conversion. Every hole class is also reached through macros with an explicit result type of every format and macros imported from files of every other format",
+    "engine": "AEProduct(AELexer x AEHTMLTok/AEJSLex/AECSSLex)+AEHist+AEMd+AEBlock+AEContext+AEConfine",
+    "technique": "TLA+ product automaton of an implementation-shaped model of lexer.scan and a reference WHATWG-HTML/JavaScript/CSS/JSON tokenizer, explored by TLC over a fragment alphabet to the fix-point of the region where the two machines are in step (documents of unbounded length) plus a bounded number of fragments behind every root cause; the shortest document of every product state is built by the real code with a show at every fragment boundary (real ast.Show contexts judged against the reference slots by TLC: candidates and root causes) and every transition out of a synchronised state is replayed against the real lexer; holes of every (context, slot, root cause) class are rendered with a context-breaking value dictionary, and TLC tokenises every rendered output with the reference tokenizers and compares its structure signature with that of the benign rendering. Two further case spaces are enumerated by TLC: documents with SEVERAL shows (pairs of attribute segments, the renderer's URL state being entered and left by shows and by text; one show is probed, the others are benign), and Markdown template files (every sequence of up to 3 fragments of a Markdown alphabet, holes at every boundary), whose outputs are converted by a CommonMark converter and compared by the structure of the conversion. Every hole class is also reached through macros with an explicit result type of every format and macros imported from files of every other format. A fourth case space, enumerated by TLC, puts a probed show in and behind the bodies of macro declarations and using statements in every spelling of the opening and of the end statement, nested to depth 2 (the lexer's stack of saved contexts), with a transcription of lexCode's stack checked against the reference beside it",
     "level": "model_checking",
-    "level_text": "MC_AEProduct: TLC explores the product of AELexer (lexer.scan transcribed branch by branch) and the reference tokenizers; quick: HTML files, 16 fragments, unbounded behind a root cause; thorough: HTML files with 63 fragments (2 fragments behind a root cause) and 26 fragments (4 behind, product states behind different classes of root causes kept apart), JS, CSS and JSON files with 20/16/12 fragments. States that neither agree nor are confinement-compatible are breaking edges (diagnostic). Context level: the documents form a prefix tree; every node is built by the real lexer with `{{ x }}` appended and Trace_AEContext steps the reference over the tree and computes Agree / Compatible / root cause per node; the context AELexer predicts after every transition out of a synchronised state is compared with the real one (model drift; drifted documents are continued by two more fragments). Confinement level (the verdict): for every reachable (context, URL, slot, attribute kind, root cause) class one hole at the end of a document and up to 2 (quick) / 6 (thorough) holes in front of different next fragments are rendered with ~135 values (strings incl. Markdown syntax, numbers, booleans, Stringer, error, slices, maps, structs; the trusted types as negative control), directly, through a macro, an in-place macro, an imported macro and rendered .html/.txt files, and through macros with the result types string/html/css/js/json/markdown and macros imported from .html/.md/.js/.css/.json/.txt files (every pair of macro format and context format); Trace_AEConfine requires Signature(output with value) = Signature(output with the benign value of the same type and shape). MC_AEHist: TLC enumerates the documents `segment` and `segment segment` over attribute segments open-value-close (quick: <a href=\", <a href=, <div title=', <p title= x values of up to 2 pieces of {show, x, ?}; thorough: 6 opens incl. single-quoted and srcset, pieces {show, x, ?, &, #}, optionally a show in text between the segments), checks them well formed with the reference tokenizer, and every show of the last segment is probed with the attribute part of the dictionary while the other shows are benign (same verdict predicate; the signature names what the renderer did before). MC_AEMd: TLC enumerates every sequence of at most 3 fragments of a Markdown alphabet (quick 13, thorough 19 fragments: text, line ending, blank line, heading / quote / list markers, four spaces, tab, fence line, * _ ` [ ]( ) http://e/ <a href=\" \"; no tag open across a line ending) and labels the position at the end of each (block x inline construct); the real context of a hole there is read off the real lexer; holes are selected per (real context, label) and rendered like the others; for a Markdown file the driver also logs the CommonMark conversion of every output (goldmark, raw HTML kept) and Trace_AEConfine compares the signatures of the conversions (without the tags p and br: the layout of text in lines and paragraphs is not structure).",
-    "level_note": "Trusted: TLC, the Json module, the reference tokenizers themselves (WHATWG tokenizer with the tree builder's tokenizer switches, without foreign content and noscript; character references are decoded only inside event-handler and style attribute values (numeric and amp/lt/gt/quot/apos); JavaScript lexical grammar with the usual regex heuristic; css-syntax token boundaries), the driver (concretises documents, calls BuildTemplate/Run, reads ast.Show.Context in ExpandedTransformer, logs). URL structure inside URL attributes is not part of the signature; JS/CSS/JSON files only in the thorough tier; the {% macro %} context stack of the lexer is exercised only through the in-place macro at the hole. Markdown files: goldmark (plain CommonMark, html.WithUnsafe) is trusted as the CommonMark parser the property names; there is no implementation-shaped model of the Markdown part of lexer.scan (scanCodeBlock, URL detection) and no product exploration: the label of a position (MC_AEMd) is coarse and only selects and names holes; GFM extensions (tables, strikethrough, bare-URL autolinks) are not judged; documents with several shows are attribute segments of HTML files only.",
+    "level_text": "MC_AEProduct: TLC explores the product of AELexer (lexer.scan transcribed branch by branch) and the reference tokenizers; quick: HTML files, 16 fragments, unbounded behind a root cause; thorough: HTML files with 63 fragments (2 fragments behind a root cause) and 26 fragments (4 behind, product states behind different classes of root causes kept apart), JS, CSS and JSON files with 20/16/12 fragments. States that neither agree nor are confinement-compatible are breaking edges (diagnostic). Context level: the documents form a prefix tree; every node is built by the real lexer with `{{ x }}` appended and Trace_AEContext steps the reference over the tree and computes Agree / Compatible / root cause per node; the context AELexer predicts after every transition out of a synchronised state is compared with the real one (model drift; drifted documents are continued by two more fragments). Confinement level (the verdict): for every reachable (context, URL, slot, attribute kind, root cause) class one hole at the end of a document and up to 2 (quick) / 6 (thorough) holes in front of different next fragments are rendered with ~135 values (strings incl. Markdown syntax, numbers, booleans, Stringer, error, slices, maps, structs; the trusted types as negative control), directly, through a macro, an in-place macro, an imported macro and rendered .html/.txt files, and through macros with the result types string/html/css/js/json/markdown and macros imported from .html/.md/.js/.css/.json/.txt files (every pair of macro format and context format); Trace_AEConfine requires Signature(output with value) = Signature(output with the benign value of the same type and shape). MC_AEHist: TLC enumerates the documents `segment` and `segment segment` over attribute segments open-value-close (quick: <a href=\", <a href=, <div title=', <p title= x values of up to 2 pieces of {show, x, ?}; thorough: 6 opens incl. single-quoted and srcset, pieces {show, x, ?, &, #}, optionally a show in text between the segments), checks them well formed with the reference tokenizer, and every show of the last segment is probed with the attribute part of the dictionary while the other shows are benign (same verdict predicate; the signature names what the renderer did before). MC_AEMd: TLC enumerates every sequence of at most 3 fragments of a Markdown alphabet (quick 13, thorough 19 fragments: text, line ending, blank line, heading / quote / list markers, four spaces, tab, fence line, * _ ` [ ]( ) http://e/ <a href=\" \"; no tag open across a line ending) and labels the position at the end of each (block x inline construct); the real context of a hole there is read off the real lexer; holes are selected per (real context, label) and rendered like the others; for a Markdown file the driver also logs the CommonMark conversion of every output (goldmark, raw HTML kept) and Trace_AEConfine compares the signatures of the conversions (without the tags p and br: the layout of text in lines and paragraphs is not structure). MC_AEBlock: TLC enumerates the documents `block probe use` with block = open `1 ` [open `1 ` probe close use] probe close; open: {% macro N() R %}, {% macro N R %}, {% show itea; using R %}, {% var v = itea; using R %}, {% show itea(); using macro() R %} (R: no type, string, html, css, js, json, markdown), and {% if %}, {% for %}, {% switch %}{% case %}, {% select %}{% default %}, {% raw %}, {% L: for %}; close: {% end %} or {% end <keyword of the opening> %} (all the spellings the parser accepts); use: the call {{ N() }} / {{ v }} that makes the body appear, inside an element of the body's format; quick: an HTML file, outer macro/show/var/showm x {no type, string, one more type chosen by the seed} x inner {nothing, show, if, raw, labeled for} (216 documents, 576 probes); thorough: all 11 kinds x 7 types outside x 8 kinds x 3 types inside in an HTML file, a reduced set inside a script element and in .md/.js/.css/.json files (4612 documents, 13024 probes). One probe per case (behind the block, in the outer body behind the inner block, in the inner body) is rendered with 30 values of the dictionary and judged by the same predicate; the context the real lexer gives to the probe is read off the real code and is part of the signature; for every case TLC also computes the format the template places the probe in (reference) and the context after lexCode's push/pop rules (model): differences between the three are reported as diagnostics.",
+    "level_note": "Trusted: TLC, the Json module, the reference tokenizers themselves (WHATWG tokenizer with the tree builder's tokenizer switches, without foreign content and noscript; character references are decoded only inside event-handler and style attribute values (numeric and amp/lt/gt/quot/apos); JavaScript lexical grammar with the usual regex heuristic; css-syntax token boundaries), the driver (concretises documents, calls BuildTemplate/Run, reads ast.Show.Context in ExpandedTransformer, logs). URL structure inside URL attributes is not part of the signature; JS/CSS/JSON files only in the thorough tier; the bodies of the block documents (MC_AEBlock) contain only the text `1 ` (no markup that changes the context inside a body), blocks are nested to depth 2, and only .html files are used in the quick tier; {% extends %} and {%% %%} blocks are not generated. Markdown files: goldmark (plain CommonMark, html.WithUnsafe) is trusted as the CommonMark parser the property names; there is no implementation-shaped model of the Markdown part of lexer.scan (scanCodeBlock, URL detection) and no product exploration: the label of a position (MC_AEMd) is coarse and only selects and names holes; GFM extensions (tables, strikethrough, bare-URL autolinks) are not judged; documents with several shows are attribute segments of HTML files only.",
     "design_ref": "7/C06",
 }
 FAMS = ["autoescape"]
@@ -28,6 +28,28 @@ HIST_T = {"HOpen1": {3, 63, 58, 23, 4, 61}, "HLen1": 2, "HOpen2": {3, 63, 58, 23
 # Markdown files (MC_AEMd): fragments and maximal number of fragments of a document
 MD_Q = {"MdUse": {13, 14, 65, 64, 66, 67, 53, 28, 35, 71, 38, 3, 7}, "MdLen": 3}
 MD_T = {"MdUse": {13, 14, 65, 64, 66, 67, 53, 28, 35, 71, 38, 3, 7, 12, 68, 69, 70, 72, 73}, "MdLen": 3}
+# fourth case space (MC_AEBlock): the lexer's context stack around macro declarations, using statements and the block
+# statements inside them.  quick: one run (HTML file; result types: none, string and one more, rotated by the seed);
+# thorough: every kind and type outside x a reduced set inside, the same inside a script element, and files of the other formats
+BLOCK_TYPES = ["html", "css", "js", "json", "markdown"]
+BLOCK_KINDS = {"macro", "macrob", "show", "var", "showm", "if", "for", "switch", "select", "raw", "lfor"}
+
+
+def block_runs(ctx):
+    def c(fmt, places, outer, otypes, inner, itypes):
+        return {"BFmt": fmt, "BPlaces": set(places), "BOuter": set(outer), "BOuterTypes": set(otypes), "BInner": set(inner), "BInnerTypes": set(itypes)}
+    if ctx.quick:
+        return [("block", c("HTML", "F", ["macro", "show", "var", "showm"], ["none", "string", BLOCK_TYPES[ctx.seed % len(BLOCK_TYPES)]],
+                            ["show", "if", "raw", "lfor"], ["none"]))]
+    alltypes = ["none", "string"] + BLOCK_TYPES
+    runs = [("block", c("HTML", "F", BLOCK_KINDS, alltypes, ["macro", "show", "var", "showm", "if", "switch", "raw", "lfor"], ["none", "string", "js"])),
+            ("block_s", c("HTML", "S", ["show", "var", "showm", "if", "raw", "lfor"], ["none", "string", "html", "js"], ["show", "if", "raw", "lfor"], ["none", "string"]))]
+    for fmt in ("MD", "JS", "CSS", "JSON"):
+        runs.append(("block_" + fmt.lower(), c(fmt, "F", ["macro", "macrob", "show", "var", "showm"], ["none", "string", "html", "js"],
+                                               ["macro", "show", "if", "raw", "lfor"], ["none", "string"])))
+    return runs
+
+
 CN = {0: "Text", 1: "HTML", 2: "CSS", 3: "JS", 4: "JSON", 5: "Markdown", 6: "Tag", 7: "QuotedAttr", 8: "UnquotedAttr",
       9: "CSSString", 10: "JSString", 11: "JSONString", 12: "TabCodeBlock", 13: "SpacesCodeBlock", -2: "inert"}
 
@@ -230,6 +252,7 @@ def generate(ctx, module, step, consts, outname, tag):
     recs = rig.read_ndjson(wd / outname)
     if not m or int(m.group(1).split(",")[-1]) != len(recs):
         raise Infra(f"{module}: {len(recs)} records exported, TLC printed {m and m.group(1)} ({wd})")
+    ctx.notes.setdefault("printed", {})[step] = [int(x) for x in m.group(1).split(",")]
     return recs
 
 
@@ -510,6 +533,36 @@ def hist_level(ctx, recs, frags, ccases, tot):
         tot["hist_cases"] += 1
 
 
+def block_level(ctx, runs, ccases, tot):
+    """MC_AEBlock's documents (a probe in or behind the body of a macro declaration / using statement): the context the
+       real lexer gives to the probe is read off the real code and goes into the signature; it is compared with the
+       format the template places the probe in (reference) and with lexCode's stack as transcribed (model): diagnostic"""
+    recs = [r for _, rs in runs for r in rs]
+    cfile, ofile = ctx.work / "ctxblk_cases.ndjson", ctx.work / "ctxblk_obs.ndjson"
+    rig.write_ndjson(cfile, [{"id": i + 1, "fmt": r["fmt"], "frags": r["frags"], "hole": r["hole"]} for i, r in enumerate(recs)])
+    ctx.drive("c06", cfile, ofile, args=["-mode", "ctxat"], timeout=1200)
+    real = {o["id"]: o for o in rig.read_ndjson(ofile)}
+    if len(real) != len(recs):
+        raise Infra(f"ctxat driver returned {len(real)} observations for {len(recs)} block documents")
+    differs = []
+    for i, r in enumerate(recs):
+        o = real[i + 1]
+        if o["ctx"] < 0:
+            tot["block_not_built" if o["ctx"] != -3 else "host_panics_ctx"] += 1
+            continue
+        c = CN.get(o["ctx"], "none")
+        tot["block_model_drift"] += c != r["mctx"]
+        if c != r["ectx"]:
+            differs.append((r, c))
+        ccases.append({"id": len(ccases) + 1, "fmt": r["fmt"], "frags": r["frags"], "hole": r["hole"], "via": "direct", "vset": "block",
+                       "pt": {"ctx": c, "url": o["url"], "slot": r["slot"], "kind": "", "root": "none", "block": r["block"]}})
+        tot["block_cases"] += 1
+    tot["block_context_differs"] = len(differs)
+    if differs:
+        r, c = differs[0]
+        ctx.cov["block_context_example"] = {"template": show_doc(r["frags"], r["hole"]), "file": "index." + EXT[r["fmt"]], "real_context": c, "placed_in": r["ectx"]}
+
+
 def md_level(ctx, recs, frags):
     """MC_AEMd's documents: real context of a hole at the end of each (driver), label of the position (TLC)"""
     cfile, ofile = ctx.work / "ctxmd_cases.ndjson", ctx.work / "ctxmd_obs.ndjson"
@@ -529,11 +582,14 @@ def md_level(ctx, recs, frags):
 def run(ctx, only_case=None):
     if only_case is not None:
         return run_cases(ctx, [only_case], replaying=True)
+    bruns = block_runs(ctx)
     with ThreadPoolExecutor(max_workers=3) as ex:
         fh = ex.submit(generate, ctx, "MC_AEHist", "hist", ctx.pick(HIST_Q, HIST_T), "hist_cases.ndjson", "HIST")
         fm = ex.submit(generate, ctx, "MC_AEMd", "md", ctx.pick(MD_Q, MD_T), "md_docs.ndjson", "MD")
+        fb = [ex.submit(generate, ctx, "MC_AEBlock", step, consts, "block_cases.ndjson", "BLOCK") for step, consts in bruns]
         alldocs, frags = model_check(ctx)
         hist_recs, md_recs = fh.result(), fm.result()
+        block_recs = [(step, f.result()) for (step, _), f in zip(bruns, fb)]
     ccases = []
     tot = collections.Counter()
     allclasses, allcand, allroots, drift_notes = set(), set(), set(), []
@@ -615,6 +671,18 @@ def run(ctx, only_case=None):
     allclasses |= {("MD",) + k for k in mdclasses}
     n0 = len(ccases)
     add_cases(ctx, ccases, "MD", mholes, set(), set())
+    # 2d. block statements that save and restore the context
+    block_level(ctx, block_recs, ccases, tot)
+    printed = [ctx.notes["printed"][step] for step, _ in bruns]
+    ctx.cov.update(block_documents=sum(p[0] for p in printed), block_cases=tot["block_cases"], block_documents_not_built=tot["block_not_built"],
+                   block_cases_where_stack_model_differs_from_reference=sum(p[1] for p in printed),
+                   block_probes_whose_real_context_differs_from_the_format_they_are_placed_in=tot["block_context_differs"],
+                   block_probes_whose_real_context_differs_from_the_stack_model=tot["block_model_drift"],
+                   block_runs=[{"format": c["BFmt"], "place": "".join(sorted(c["BPlaces"])), "outer_kinds": len(c["BOuter"]), "outer_types": sorted(c["BOuterTypes"]),
+                                "inner_kinds": len(c["BInner"]), "inner_types": sorted(c["BInnerTypes"]), "documents": p[0], "cases": p[2]}
+                               for (_, c), p in zip(bruns, printed)])
+    if tot["block_cases"] == 0:
+        raise Infra("the block-statement case space is empty (no document of MC_AEBlock builds)")
     ctx.cov.update(documents=tot["documents"], state_documents=tot["documents"], boundaries=tot["boundaries"] + len(minfo),
                    transitions_replayed=tot["transitions_replayed"], boundaries_not_built=tot["boundaries_not_built"],
                    boundaries_inert=tot["boundaries_inert"], host_panics_ctx=tot["host_panics_ctx"],
@@ -646,7 +714,7 @@ def run_cases(ctx, ccases, replaying=False):
                    trusted_values_changed_structure=tot["trustedchanged"], host_panics=sum(1 for o in cobs for x in o["outs"] if x["oc"] == "hostpanic"),
                    traces_validated_against_impl=ctx.cov.get("documents", 0) + len(cobs),
                    distinct_nontrivial=len(nontrivial), exhaustive=True,
-                   rule="documents: the shortest fragment sequence reaching every reachable product state (and, thorough, every transition out of it), exported by TLC; holes: every fragment boundary (context level), one to three per (context, URL, slot, kind, root cause) class at the end of a document and in front of a suffix (confinement level) x 6 + 11 ways of reaching the hole x the value dictionary; plus every (document of MC_AEHist, probed show) and the holes of every (real context, label) class of the Markdown documents of MC_AEMd; a render is non-trivial when its bytes differ from the benign rendering",
+                   rule="documents: the shortest fragment sequence reaching every reachable product state (and, thorough, every transition out of it), exported by TLC; holes: every fragment boundary (context level), one to three per (context, URL, slot, kind, root cause) class at the end of a document and in front of a suffix (confinement level) x 6 + 11 ways of reaching the hole x the value dictionary; plus every (document of MC_AEHist, probed show), the holes of every (real context, label) class of the Markdown documents of MC_AEMd and every (document of MC_AEBlock, probe) x 30 values; a render is non-trivial when its bytes differ from the benign rendering",
                    samples=[{"template": show_doc(o["frags"], o["hole"], o.get("holes", ()), o.get("after", ())), "via": o["via"], "context": o["pt"]["ctx"], "slot": o["pt"]["slot"],
                              "value": x["c"], "rendered": rig.b2s(x["out"])}
                             for o in rig.pick_samples(cobs, 4, ctx.seed) for x in o["outs"][7:8]])
@@ -686,5 +754,6 @@ def replay(ctx, path):
 
 
 # the findings of this check are in known-findings.json (kind "known" / "fixed"); _PROPOSED_BY_THE_BUILD documents the original list.
-# Demonstrated by the Markdown files added in the strengthening round (not yet in known-findings.json):
+# Demonstrated by the block-statement documents (MC_AEBlock) on the unchanged tree, not yet in known-findings.json
+# (proposed fix: /tmp/c06_block_fix.diff):
 PROPOSED_KNOWN = []   # integrated into known-findings.json
